@@ -171,7 +171,8 @@ class C20(core.Check):
                             "newlinechar": r.choice([None, "\\n", "\\r\\n"]), "expand": r.choice([None, True, False]),
                             "comments": r.choice([None, True, False]), "in_place": r.random() < 0.25,
                             "include": r.random() < 0.3,
-                            "existing_out": r.choice([None, None, "other_newlines", "other_newlines", "same", "garbage", "cr_variant"])})
+                            "existing_out": r.choice([None, None, "other_newlines", "other_newlines", "same", "garbage", "cr_variant"]),
+                            "symlink": r.random() < 0.25})
             elif name == "validate":
                 files = []
                 for _ in range(r.choice([1, 1, 2, 3, 5, 8])):
@@ -395,6 +396,15 @@ class C20(core.Check):
                 text = "\n".join(lines)
         with open(pin, "wb") as f:
             f.write(text.encode("utf-8"))
+        if op.get("symlink") and not op.get("in_place"):
+            # IN is a symbolic link in another directory; the INCLUDE beside the LINK differs from the one beside the
+            # real file: names resolve against the directory of the path that was given, as open(IN) does
+            ld = os.path.join(d, "link")
+            os.makedirs(ld)
+            with open(os.path.join(ld, "inc.map"), "wb") as f:
+                f.write('LAYER\n  NAME "beside the link"\n  TYPE LINE\nEND\n'.encode())
+            os.symlink(pin, os.path.join(ld, "in.map"))
+            pin = os.path.join(ld, "in.map")
         pout = pin if op.get("in_place") else os.path.join(d, "out.map")
         args = ["format", pin, pout]
         skw = {}
@@ -432,7 +442,7 @@ class C20(core.Check):
             with open(pout, "wb") as f:
                 f.write(pre)
         res = self.run_cli(args)
-        sig = {"in_place": "yes" if op.get("in_place") else "no", "existing_out": str(op.get("existing_out"))}
+        sig = {"in_place": "yes" if op.get("in_place") else "no", "existing_out": str(op.get("existing_out")), "symlinked_in": "yes" if op.get("symlink") else "no"}
         if ref[0] != "ok":
             if res["status"] == 0:
                 return viol("format_succeeds_where_api_raises", op, {"api": ref[1], "cli": res}, **sig)
